@@ -142,7 +142,8 @@ def run_property(prop: str, tier: str, seed: int, only=None) -> int:
         ex_ = k.get("example")
         if not ex_:
             continue
-        out = native_replay({"property": prop, "cond": ex_["cond"], "tier": "thorough", "seed": seed, "args": ex_["args"]})
+        out = native_replay({"property": prop, "cond": ex_["cond"], "tier": ex_.get("tier", "quick"), "seed": ex_.get("seed", 0),
+                             "args": ex_["args"]})
         still = out.get("status") == "fails" and findings.match(
             [k], ex_["cond"], {"kind": out.get("kind"), "site": out.get("site"), "args": ex_["args"]}) is not None
         k["_witnessed"] = still
